@@ -19,16 +19,16 @@ func init() {
 }
 
 type searchPlan struct {
-	n       int
-	divs    []int
-	stores  []string
-	signers [][]string
-	alpha   wh.AlphaOpts
-	workers int
+	n        int
+	divs     []int
+	stores   []string
+	signers  [][]string
+	alpha    wh.AlphaOpts
+	workers  int
 	aliasing bool
-	preStep func()
-	reps    int
-	twoLogs bool
+	preStep  func()
+	reps     int
+	twoLogs  bool
 }
 
 // runPlan executes the plan's searches with one monitor and fills the
@@ -165,7 +165,7 @@ func c04(tier string) int {
 	// line + J unknown lines + one line per witness key): the largest J that
 	// still fits must be cosigned with the log's line intact, one more must be
 	// refused.
-	shapes := []string{"plain", "ext", "junk1", "otherlog", "stale-own-valid", "stale-own-invalid", "dup-logsig", "junk96", "junk97", "junk98", "junk99"}
+	shapes := []string{"plain", "ext", "junk1", "otherlog", "stale-own-valid", "stale-own-invalid", "dup-logsig", "junk96", "junk97", "junk98", "junk99", "bigext70"}
 	n := 6
 	if tier == "thorough" {
 		n = 9
